@@ -35,7 +35,7 @@ func (propC12) Runs(tier string) int {
 	if tier == "thorough" {
 		return 1_500_000
 	}
-	return 50_000
+	return 120_000
 }
 func (propC12) Gen(r *simrt.Rand, idx int, tier string) any {
 	if createGen != nil && idx%12 == 0 {
